@@ -16,10 +16,16 @@ Open Scope N_scope.
 
 Definition parse_fmt (b : bytes) : option fmt_id := List.find (fun f => beq (fmt_name f) b) all_formats.
 
+(* one pass per chunk (thousands of 512-byte chunks of a multi-MiB stream) *)
+Fixpoint take_rev (n : nat) (b acc : bytes) : bytes * bytes :=
+  match n, b with
+  | S n', x :: t => take_rev n' t (x :: acc)
+  | _, _ => (rev' acc, b)
+  end.
 Fixpoint split_sizes (data : bytes) (sizes : list N) : list bytes :=
   match sizes with
   | [] => match data with [] => [] | _ => [data] end
-  | n :: t => ntake n data :: split_sizes (nskip n data) t
+  | n :: t => let '(c, rest) := take_rev (N.to_nat n) data [] in c :: split_sizes rest t
   end.
 
 Definition out_region (p : rname * region) : bytes :=
